@@ -8,7 +8,7 @@
     Statements only; proofs in Proofs/{DPProofs,CKKOptimal,CGOptimal,SNPProofs,Glue,KKProofs,OracleSpec,Findings}.v. *)
 From Prtpy Require Import Base.Prelude Model.Binner Model.Objectives Model.KK Model.CG Model.DP Model.SNP Spec.Partition Oracle.Reach Proofs.DPProofs Proofs.KKProofs Proofs.CKKOptimal Proofs.CGOptimal Proofs.SNPProofs Proofs.Glue Proofs.OracleSpec Proofs.Findings Model.SNPTrace Proofs.SNPTraceProofs.
 
-(** dynamic programming is optimal for every objective *)
+(** C02 - Exact partitioners attain the true optimum of their objective. Opt o k vs v: v is attained by some assignment of the values to k bins and no assignment has a smaller objective value. dp: every objective. cg: every objective and every one of the 16 switch vectors, both bins-managers. ckk, snp: difference objective; premise names_ok / injective nameof = names determine values (plain numbers or distinct names). rnp: REFUTED for 4 bins on the faithful model (known finding rnp-suboptimal, Proofs/Findings.v); 2 bins reduce to ckk. ilp: optimal relative to the solver hypothesis (Properties/C17); judged per input against the verified oracle here. opt_value (the oracle used to judge prtpy's outputs) is proved to be the optimum. Statements only; proofs in Proofs/{DPProofs,CKKOptimal,CGOptimal,SNPProofs,Glue,KKProofs,OracleSpec,Findings}.v. *) From Prtpy Require Import Base.Prelude Model.Binner Model.Objectives Model.KK Model.CG Model.DP Model.SNP Spec.Partition Oracle.Reach Proofs.DPProofs Proofs.KKProofs Proofs.CKKOptimal Proofs.CGOptimal Proofs.SNPProofs Proofs.Glue Proofs.OracleSpec Proofs.Findings Model.SNPTrace Proofs.SNPTraceProofs. (** dynamic programming is optimal for every objective *)
 Theorem C02_dp_optimal :
   forall (A : Type) (valueof : A -> Z) (o : objective) (k : nat) (items : list A) (b : bins A),
   (1 <= k)%nat ->
@@ -70,6 +70,16 @@ Theorem C02_ckk_bound_admissible :
   expands nameof h [e] -> ckk_bound k h = Some lb -> fst e <= lb.
 Proof. exact @ckk_bound_admissible. Qed.
 Print Assumptions C02_ckk_bound_admissible.
+
+(** ... [expands] is the search tree of the algorithm (children de-duplicated by names, then by sums); the bound is admissible for every leaf of the tree of ALL pairings of the bins as well *)
+Theorem C02_ckk_bound_admissible_all :
+  forall (A : Type) (valueof nameof : A -> Z) (k : nat) (its : list A)
+  (h : heap) (e : hentry) (lb : Z),
+  heap_full valueof k its h ->
+  Forall (fun x : A => 0 <= valueof x) its ->
+  expands_all nameof h [e] -> ckk_bound k h = Some lb -> fst e <= lb.
+Proof. exact @ckk_bound_admissible_all. Qed.
+Print Assumptions C02_ckk_bound_admissible_all.
 
 (** sequential number partitioning is optimal for the difference objective *)
 Theorem C02_snp_optimal :
